@@ -18,6 +18,7 @@ func plans() []nrun.Plan {
 		for _, p := range ps {
 			p.QuickBudget, p.ThoroughBudget = quick, thorough
 			p.QuickFaultOnlyFrom, p.ThoroughFaultOnlyFrom = 0, 0
+			p.Allow = nil // scenario-specific deviation filters speak the controlled-mode labels
 			out = append(out, p)
 		}
 	}
@@ -29,9 +30,13 @@ func plans() []nrun.Plan {
 func TestC41(t *testing.T) {
 	nrun.Main(t, &nrun.Check{
 		ID: "C41", TestName: "TestC41", Plans: plans(),
-		QuickTime: 80 * time.Second, ThorTime: 18 * time.Minute,
+		QuickTime: 150 * time.Second, ThorTime: 18 * time.Minute,
 		Rule: "engine N in burst mode under the Go race detector: for each end-to-end scenario, at every quiescent point ALL enabled application calls and frame deliveries are released concurrently (k=0), and every single 'hold one event back for a round' deviation (k=1; k=2 thorough); a data race report from the detector (halt_on_error) is the violation; distinct = distinct terminal outcomes",
 		Assume: []string{"the race detector's happens-before analysis generalises over timings with the same synchronisation order", "within a burst the goroutine schedule is the Go runtime's", "synctests build of xsync (channel mutexes give the detector the same edges)"},
+		// In burst mode several application calls and deliveries are released at
+		// once, so the scenario oracles written for one-event-at-a-time stepping
+		// are not valid; only the race detector (a dead worker) judges here.
+		Keep: func(_, key string) bool { return key == "worker-crash" },
 		KeyOf: func(scenario, key string) string {
 			if key == "worker-crash" {
 				return "C41:" + scenario + ":race-or-crash"
